@@ -383,14 +383,15 @@ class World:
         rs = RandomStub(ctx)
         for mod in votekit_modules():
             d = mod.__dict__
-            if d.get("random") is real_random:
+            # (worlds nest: an inner world re-binds the stubs of an outer one to its own ctx and restores them)
+            if d.get("random") is real_random or isinstance(d.get("random"), RandomStub):
                 self._set(mod, "random", rs)
-            if d.get("np") is real_np:
+            if d.get("np") is real_np or isinstance(d.get("np"), NpStub):
                 self._set(mod, "np", NpStub(ctx, real_np))
             if sym:
-                if d.get("Fraction") is RealFraction:
+                if d.get("Fraction") is RealFraction or d.get("Fraction") is core.FractionShim:
                     self._set(mod, "Fraction", core.FractionShim)
-                if d.get("math") is real_math:
+                if d.get("math") is real_math or isinstance(d.get("math"), MathShim):
                     self._set(mod, "math", MathShim())
                 if mod.__name__ == "votekit.pref_profile":
                     self._set(mod, "pd", FakePD)
